@@ -4,9 +4,9 @@ import json, subprocess
 
 NOTES = {
  "C01": ("Lean proof that the engine model (engOp) equals the reference semantics (Sem.eval) on the fragment selectors / range functions / unary / parentheses for all inputs, plus engOp_err; the remaining operators are covered per operator in C04-C06. Engine<->model and Prometheus<->Spec are tied by differential correspondence on generated composite queries.", "partial: composition theorem over a fragment; binary-matching and duplicate-labelset deviations are known findings"),
- "C02": ("Lean proofs: selector operator = reference selection (all storages/lookbacks/offsets), lookback boundary lemmas, cursor enumerates the grid for every step count, contiguous sharding covers for every shard count, coalesce denotes the union for every merge order.", "iterator library (MemoizedSeriesIterator) is modelled by its specification selectSample and tied by correspondence"),
- "C03": ("Lean proofs: matrix-selector operator = reference range-function evaluation; window membership characterisation (both ends inclusive, no stale), presence rules; kernels are shared Lean definitions validated against both engines.", "BufferedSeriesIterator window reuse is modelled by its specification windowPoints and tied by correspondence"),
- "C04": ("Lean proofs about grouping labels (by/without, name dropped), k parameter handling, one output per group, engine accumulators = reference reductions (sum/avg under stated laws).", "partial: static-vs-dynamic grouping equivalence is tied by correspondence only"),
+ "C02": ("Lean proofs: selector operator = reference selection (all storages/lookbacks/offsets); refinement theorem: the engine's selectPoint over an operational model of Prometheus' MemoizedSeriesIterator equals the declarative selection along every non-decreasing sequence of step times; lookback boundary lemmas, cursor enumerates the grid for every step count, contiguous sharding covers for every shard count, coalesce denotes the union for every merge order.", "the iterator model is tied to the real MemoizedSeriesIterator + selectPoint by a kernel-level correspondence (verif-tag export)"),
+ "C03": ("Lean proofs: matrix-selector operator = reference range-function evaluation; refinement theorem: selectPoints over an operational model of BufferedSeriesIterator (ring eviction, buffer reset, reused output slice) returns exactly the window's non-stale samples along every strictly increasing sequence of window ends; window characterisation (both ends inclusive, no stale), presence rules; kernels are shared Lean definitions validated against both engines.", "the iterator model is tied to the real BufferedSeriesIterator + selectPoints by a kernel-level correspondence (verif-tag export)"),
+ "C04": ("Lean proofs about grouping labels (by/without, name dropped), k parameter handling, one output per group, engine accumulators = reference reductions (sum/avg under stated laws), aggregation over the Theorem-B fragment equals the reference up to output order, the topk/bottomk heap keeps a sub-multiset of size min(k, n) for every arrival order.", "partial: that the heap keeps the k *largest* is tied by correspondence only (ties are legitimately order dependent)"),
  "C05": ("Lean proofs for vector-scalar operators and the reference matching semantics; counterexample theorems exhibiting the engine's join deviation (known finding KF-binary-matching).", "partial: the pinned vector-vector operator violates the property (recorded findings)"),
  "C06": ("Lean proofs: pointwise function operators commute with denotation, scalar(), clamp, step-invariant evaluation in reference and engine, time()/literals per step.", "math functions are uninterpreted operations of the value algebra"),
  "C07": ("Lean proofs: leaf cursor protocol enumerates exactly the grid for every step count and batch size, batches bounded, instant = one step, evalGrid is pointwise over the grid (append law).", "range-vs-instant equality of the whole engine is additionally checked on the real engine"),
@@ -20,7 +20,7 @@ NOTES = {
  "C15": ("Lean: loader model never succeeds on an incomplete series set; errors propagate through Except and across the pull goroutine (reachability, no external cancel). Fault injection at every storage event kind validates.", "positional faults stand for the k-th callback"),
  "C16": ("Lean: hinted time range contains every sample a selector reads (range selectors, pinned selectors, lookback interval); window locality. Hints are compared with the reference engine's on the real code, and sufficiency by a trimming storage.", "partial: Func/Grouping hint fields are compared by the oracle only"),
  "C17": ("Lean: loader model closes every opened querier exactly once on every path, close is last; regenerated facts (one open site, one deferred close). Counting storage and label snapshots validate.", "partial: aliasing is observed by the harness, not modelled"),
- "C18": ("Lean: contract lemmas for selector leaves (IDs in range, distinct), pointwise/filtering operators, re-basing, batch bounds and step order. The verif-tag wrapper checks the contract at every Series/Next on the real engine.", "partial: aggregation and binary operators are covered by the wrapper only"),
+ "C18": ("Lean: plan-wide contract theorem by induction over the typing derivation of all natively supported constructs: every operator of every plan emits per step IDs that index its series list and are pairwise distinct; scalar operators have one series (join tables, probe loop, k-aggregation, hash aggregation, histogram, timestamp selector included); batch bounds and step order of the leaf cursor. The verif-tag wrapper checks the full contract at every Series/Next on the real engine.", "partial: end-of-stream stays ended / no concurrent Next are covered by the wrapper only"),
  "C19": ("Lean: label-set well-formedness preserved by name dropping / keep / del / grouping; range results have no empty series; counterexample for the join's appended labels. Structural checks of every result on the real engine.", "partial: duplicate label sets (known findings)"),
  "C20": ("Lean: the model threads no state between queries (history = pointwise runs); regenerated fact that no package variable is written. Sequence oracle with snapshots validates on the real engine.", "partial: buffer reuse is observed by the harness, not modelled"),
 }
